@@ -34,6 +34,25 @@ Definition Z_to_string (z : Z) : string :=
   if Z.ltb z 0 then String "-"%char (digits_of_pos 25 (Z.opp z) EmptyString)
   else digits_of_pos 25 z EmptyString.
 
+(* plain decimal numerals: optional sign, at least one digit, nothing else *)
+Fixpoint parse_digits (s : string) (acc : Z) : option Z :=
+  match s with
+  | EmptyString => Some acc
+  | String c s' =>
+      let n := Ascii.nat_of_ascii c in
+      if Nat.leb 48 n && Nat.leb n 57 then parse_digits s' (acc * 10 + Z.of_nat (n - 48)) else None
+  end.
+Definition parse_Z (s : string) : option Z :=
+  match s with
+  | EmptyString => None
+  | String c s' =>
+      if Ascii.eqb c "-"%char then match s' with EmptyString => None | _ => option_map Z.opp (parse_digits s' 0) end
+      else if Ascii.eqb c "+"%char then match s' with EmptyString => None | _ => parse_digits s' 0 end
+      else parse_digits s 0
+  end.
+
+Definition us_per_day : Z := 86400000000.
+
 Definition cast_value (v : value) (t : dtype) : value :=
   match v with
   | VNull => VNull
@@ -45,6 +64,7 @@ Definition cast_value (v : value) (t : dtype) : value :=
         | VInt z => chk_int z
         | VBool b => VInt (if b then 1 else 0)
         | VFloat f => if f_is_finite f then chk_int (float_trunc_Z f) else VErr
+        | VStr s => match parse_Z s with Some z => chk_int z | None => VErr end
         | _ => VErr
         end
       else if is_float t then
@@ -58,6 +78,10 @@ Definition cast_value (v : value) (t : dtype) : value :=
            | TStr _, VInt z => VStr (Z_to_string z)
            | TStr _, VStr s => VStr s
            | TS SBool, VBool b => VBool b
+           | TS SDate, VDatetime us => VDate (Z.div us us_per_day)       (* drops the time part *)
+           | TS SDatetime, VDate d => VDatetime (d * us_per_day)         (* adds midnight *)
+           | TS SDate, VDate d => VDate d
+           | TS SDatetime, VDatetime us => VDatetime us
            | _, _ => VErr
            end
   end.
